@@ -124,10 +124,16 @@ func (g *gateLogger) gate(msg string) {
 	}
 }
 
-func (g *gateLogger) Debug(msg string, args ...interface{}) { g.gate(msg); g.Logger.Debug(msg, args...) }
-func (g *gateLogger) Info(msg string, args ...interface{})  { g.gate(msg); g.Logger.Info(msg, args...) }
-func (g *gateLogger) Error(msg string, args ...interface{}) { g.gate(msg); g.Logger.Error(msg, args...) }
-func (g *gateLogger) IsDebug() bool                         { return true }
+func (g *gateLogger) Debug(msg string, args ...interface{}) {
+	g.gate(msg)
+	g.Logger.Debug(msg, args...)
+}
+func (g *gateLogger) Info(msg string, args ...interface{}) { g.gate(msg); g.Logger.Info(msg, args...) }
+func (g *gateLogger) Error(msg string, args ...interface{}) {
+	g.gate(msg)
+	g.Logger.Error(msg, args...)
+}
+func (g *gateLogger) IsDebug() bool { return true }
 
 // ---------------------------------------------------------------- server
 
